@@ -17,6 +17,8 @@ func init() {
 }
 
 func checkC18(p *load.Program, r *kit.Report) {
+	importRules(p, r, "C09", "the height reported for a verified proof is the label stored for the header's hash", 11, nil, "HEIGHT-LABEL")
+	importRules(p, r, "C08", "CheckHeader treats every entry of the hash→height map as a known header: a refused header must leave no entry", 12, nil, "NO-EFFECT-BEFORE-ERROR")
 	r.NotDecided = "that the lookups answer truthfully for every history (C09); the merkle path arithmetic inside the dependency (CalculateRoot); proof corruption cases as values."
 	r.Rule("GUARD-DOM", "VerifyMerkleProof returns success only behind (a) the nil-error edge of CheckHeader(hash of the header the proof carries) or of GetHeader(*proof.BlockHash), and (b) the nil-error edge of proof.Verify(); neither-arm returns an error", 3)
 	r.Rule("ORDER", "on the hash-only arm the repository's header is installed into proof.BlockHeader before Verify(); Verify() is never called before the lookup", 2)
@@ -209,6 +211,7 @@ func checkC18(p *load.Program, r *kit.Report) {
 }
 
 func checkC19(p *load.Program, r *kit.Report) {
+	importRules(p, r, "C10", "a locator names the base of every tracked side branch: pruning must keep the headers side branches fork from", 1, nil, "COVER-ALL")
 	r.NotDecided = "that a protocol-conformant peer's reply connects to a header we hold (needs a peer model); whether sorting by height makes every duplicate adjacent; locator contents for a given history."
 	r.Rule("PROVENANCE", "every hash placed in a locator is AtHeight(h).Hash / Last().Hash of the branch, a split's BeforeHash, or AtHeight(PrunedLowestHeight()).Hash of a branch other than the best one", 5)
 	r.Rule("START-SHAPE", "the best-chain walk starts at Height()-1 (genesis alone at height 0), steps down by a positive, doubling delta, and tests len(result) >= max after every best-chain hash", 2)
